@@ -89,6 +89,13 @@ def cases(draw, exclude: frozenset = frozenset()):
 	chosen = rnd.sample(names, min(k, len(pool), len(names)))
 	for old, new in zip(chosen, pool):
 		r[old] = new
+	# an enclosing class and its nested class get names in prefix relation (the qualified name Outer::Inner is assembled from both)
+	inner = re.search(r'(?m)^\tclass (I(\d+)):', prog['source'])
+	if inner and rnd.random() < 0.7:
+		outer_new, inner_new = rnd.choice([('Tree', 'TreeNode'), ('Nod', 'Node'), ('Graph', 'Graph__Node'), ('Ab', 'Abc'), ('Q', 'QQ')])
+		if not ({outer_new, inner_new} & (set(names) | set(r.values()))):
+			r[f'C{inner.group(2)}'] = outer_new
+			r[inner.group(1)] = inner_new
 	return {'source': prog['source'], 'r': r, 'tags': prog['tags']}
 
 
@@ -138,7 +145,7 @@ def judge(scratch: str, case: dict) -> tuple[list[tuple[str, str]], dict]:
 
 
 def shard(ctx: core.Ctx) -> None:
-	exclude = frozenset(e['exclude_flag'] for e in core.load_known('C01') if e.get('status') == 'known' and e.get('exclude_flag')) | frozenset(ctx.excluded)
+	exclude = core.frontend_exclusions() | frozenset(ctx.excluded)
 
 	def body(case: dict) -> None:
 		fails, info = judge(ctx.scratch, case)
